@@ -25,7 +25,27 @@ Oracles (no model involved), stated on what the real code returns:
                (deep comparison before/after)                             (signature mutated:...)
   e2e          the same `latest` / `declared` statements on the rows written by the REAL engine run under
                harness/engine_driver.py for generated fork/join workflows, all schedules / id orders
-Self-test mutations: see SELFTEST at the end of this file.
+Findings on the unchanged tree (reported with the signatures F5:* and stale:shape-change, see the final
+report / known_findings.json): F5 = PublishSpec.merge discards a part when the receiving side has none;
+F7 = a variable re-published as a dict in one branch is replaced at the join by the scalar another branch
+inherited (dict-vs-scalar compares the version of the variable itself, which publishing a dict does not bump).
+
+Self-test. Mutations of the anchored source tried one at a time in a scratch worktree (VERIF_REPO=/tmp/wt ./check C05);
+every one yields VIOLATION lines; the NEW failing-input signature (beyond the findings F5/F7 present on the
+unchanged tree) is given, `disagreement` = correspondence only (no property-level failing input exists or was found):
+  M1  context_versioning.get_in_context_with_versions: deepcopy -> dict()      mutated:outbound:in_context, mutated:upstream:in_context
+  M2  context_versioning._merge_ctx: r_ver > l_ver -> >=                         disagreement (merge/upstream) + obligation C05_source_facts
+  M3  get_in_context_with_versions: versions[updated] += 1 -> = 1                stale:same-shape
+  M4  data_flow.publish_variables: ContextView(..., wf_ex.input, wf_ex.context)  fallback:wrong-source
+  M7  expressions.evaluate_recursively: no deepcopy of the clause                fallback:wrong-source (second evaluation of one spec) + disagreement
+  M8  context_versioning._merge_versions: max -> min                             stale:same-shape
+  M11 data_flow.evaluate_task_outbound_context: inherited over published         stale:same-shape
+  M12 lang/v2/tasks.get_publish: on-complete publish ignored next to `publish`   declared-not-published:branch
+  M13 data_flow.evaluate_upstream_context: first upstream row not merged         stale:same-shape
+  M14 data_flow.evaluate_workflow_output: wf_ex.context before the final ctx     fallback:wrong-source:output
+The candidate fixes for F5 (PublishSpec.merge takes the other side's part when its own is None) and F7
+(_get_published_keys_recursively also versions dict-valued keys) make every oracle pass (failures=0) and leave
+only model disagreements, as expected of a faithful model of the unfixed code.
 """
 import copy
 import hashlib
@@ -471,6 +491,51 @@ def suite_merge(ctx):
     ctx.sample({'suite': 'merge', 'case': cases[-1]})
 
 
+
+def obs_of(d, path):
+    r = at_path(d, path)
+    if r[0] == 'absent':
+        return None
+    return 'node' if isinstance(r[1], dict) else ('leaf', freeze(r[1]))
+
+
+def key_paths(d, pre=()):
+    out = []
+    for k, v in d.items():
+        out.append(pre + (k,))
+        if isinstance(v, dict):
+            out += key_paths(v, pre + (k,))
+    return out
+
+
+def theorem_hypotheses(outs):
+    """hypotheses of C05_upstream_perm_nested evaluated on the REAL outbound contexts of the rows:
+    no "__task_execution", pairwise shape compatibility, and at every key path: absent => version 0,
+    equal versions => equal observation"""
+    datas = [{k: v for k, v in o.items() if k != VK} for o in outs]
+    verss = [o.get(VK, {}) for o in outs]
+    if any(TE in d for d in datas):
+        return False
+    paths = sorted(set(p for d in datas for p in key_paths(d)) | set())
+    for p in paths:
+        cells = [(obs_of(d, p), v.get(md5('.'.join(p)), 0)) for d, v in zip(datas, verss)]
+        for (o1, n1) in cells:
+            if o1 is None and n1 != 0:
+                return False
+        for i in range(len(cells)):
+            for j in range(i + 1, len(cells)):
+                (o1, n1), (o2, n2) = cells[i], cells[j]
+                if o1 is not None and o2 is not None:
+                    if (o1 == 'node') != (o2 == 'node'):
+                        return False
+                    if n1 == n2 and o1 != o2:
+                        return False
+    # dotted keys would make two key paths share one version entry: outside the theorem's reading
+    if any('.' in k or k == '' for p in paths for k in p):
+        return False
+    return True
+
+
 ALIAS = {}
 ORACLE = {}
 
@@ -489,6 +554,11 @@ def check_upstream_perms(ctx, suite, ups, exprs, pending, replay, reqs=()):
     """run the REAL evaluate_upstream_context on every permutation; queue the model expression"""
     data_flow, _ = real_df()
     perms = list(itertools.permutations(range(len(ups))))
+    outs = [data_flow.evaluate_task_outbound_context(mk_row(u, u.get('name', 'u'))) for u in ups]
+    hyp = len(ups) > 1 and theorem_hypotheses(outs)
+    ORACLE['joins'] = ORACLE.get('joins', 0) + (len(ups) > 1)
+    ORACLE['joins_in_theorem_class'] = ORACLE.get('joins_in_theorem_class', 0) + bool(hyp)
+    results = []
     for perm in perms:
         rows = [mk_row(ups[j], ups[j].get('name', 'u%d' % j)) for j in perm]
         w = Watch(**{'in_context[%s]' % r.name: r.in_context for r in rows})
@@ -501,6 +571,7 @@ def check_upstream_perms(ctx, suite, ups, exprs, pending, replay, reqs=()):
         if wp.changed():
             # nested dicts of `published` are shared with the merged result and merged into in place
             ALIAS[suite] = ALIAS.get(suite, 0) + 1
+        results.append(freeze(impl))
         exprs.append('show_octx (eval_upstream [%s])' % '; '.join(ctex(ups[j]) for j in perm))
         pending.append((suite, dict(replay, perm=list(perm)), impl))
         for (q, path, x, cls) in reqs:
@@ -512,6 +583,11 @@ def check_upstream_perms(ctx, suite, ups, exprs, pending, replay, reqs=()):
                          '(upstream rows in order %s)' % (replay['history'][replay['task']]['name'], '.'.join(path), x,
                                                           replay['history'][q]['name'], got, [ups[j]['name'] for j in perm]),
                          dict(replay, kind='history', perm=list(perm), path=list(path), required=x, observed=list(got)))
+    if hyp and len(set(results)) > 1:
+        # C05_upstream_perm_nested applies to these rows: the real function must be order independent
+        ctx.disagree('upstream-order-theorem', dict(replay, kind='upstream-order'),
+                     'one result for all %d permutations (theorem hypotheses hold on the real outbound contexts)' % len(perms),
+                     '%d different results' % len(set(results)))
     return len(perms)
 
 
@@ -558,6 +634,8 @@ def suite_upstream(ctx):
     ctx.cov['suites']['upstream']['published_alias_mutations_in_memory'] = ALIAS.get('upstream', 0)
     ctx.cov['suites']['upstream']['rows_per_case'] = sizes
     ctx.cov['suites']['upstream']['latest_publisher_requirements_checked'] = ORACLE.get('latest_checked', 0)
+    ctx.cov['suites']['upstream']['joins(>=2 rows)'] = ORACLE.get('joins', 0)
+    ctx.cov['suites']['upstream']['joins_satisfying_hypotheses_of_C05_upstream_perm_nested'] = ORACLE.get('joins_in_theorem_class', 0)
     ctx.sample({'suite': 'upstream', 'case': pending[-1][1]})
 
 
@@ -722,6 +800,31 @@ def cops(ps):
     if ps is None:
         return 'None'
     return '(Some (mkPS %s %s))' % tuple('None' if ps.get(k) is None else '(Some %s)' % cpd(ps[k]) for k in ('branch', 'global'))
+
+
+
+def parse_surface(s):
+    """canonical pexpr of a generated surface expression (used when the SURF table is not populated: replay)"""
+    if not isinstance(s, str):
+        return None
+    m = core.re.match(r"^(?:<% (.*) %>|\{\{ (.*) \}\})$", s)
+    if not m:
+        return None
+    body = m.group(1) or m.group(2)
+    g = core.re.match(r"^[$_]\.get\('?(\w+)'?\)$", body)
+    if g:
+        return {'get': g.group(1)}
+    e = core.re.match(r"^env\(\)\.([\w.]+)$", body)
+    if e:
+        return {'path': ['__env'] + e.group(1).split('.')}
+    q = core.re.match(r"^[$_]\.([\w.]+)$", body)
+    if q:
+        return {'path': q.group(1).split('.')}
+    return None
+
+
+def surf_lookup(raw):
+    return SURF.get(raw) or parse_surface(raw) if isinstance(raw, str) else None
 
 
 def canon_raw(v):
@@ -951,7 +1054,7 @@ def suite_publish(ctx):
         if isinstance(impl, dict) and isinstance(impl['published'], dict):
             ps_now = ts.get_publish(state)
             for var, raw in (((ps_now.get_branch() if ps_now else None) or {}).items()):
-                pe = SURF.get(raw) if isinstance(raw, str) else None
+                pe = surf_lookup(raw)
                 if pe and 'path' in pe and len(pe['path']) == 1 and pe['path'][0] not in ('__env',):
                     want = expected_var(pe['path'][0], in_ctx, wctx, inp)
                     if want[0] == 'val' and var in impl['published'] and impl['published'][var] != want[1]:
@@ -1031,7 +1134,7 @@ def suite_output_vars(ctx):
             # workflow context keys added by the engine itself are not workflow data
             src = (in_ctx, wctx, inp) if which == 'output' else (wctx, inp)
             for var, raw in raw_spec.items():
-                pe = SURF.get(raw) if isinstance(raw, str) else None
+                pe = surf_lookup(raw)
                 if pe and 'path' in pe and len(pe['path']) == 1 and pe['path'][0] != '__env':
                     want = ('absent',)
                     for dd in src:
@@ -1275,11 +1378,11 @@ def suite_e2e(ctx):
     rng = ctx.rng
     stats = {}
     hist = [copy.deepcopy(h) for h in CORPUS_HISTORIES]
-    for _ in range(ctx.n(8, 150)):
+    for _ in range(ctx.n(8, 100)):
         hist.append(gen_history(rng, typechange=rng.random() < 0.3, nmax=6))
     runs = 0
     for hi, tasks in enumerate(hist):
-        nseeds = ctx.n(10 if hi == 0 else 2, 12 if hi == 0 else 6)
+        nseeds = ctx.n(10 if hi == 0 else 2, 12 if hi == 0 else 4)
         for k in range(nseeds):
             seed = ctx.seed * 1000 + hi * 10 + k
             before = len(ctx.failures)
@@ -1461,22 +1564,3 @@ def untuple_task(t):
         out[oc] = None if not t.get(oc) else {pk: (None if pv is None else {k: pe(v) for k, v in pv.items()}) for pk, pv in t[oc].items()}
     return out
 
-
-SELFTEST = """
-Mutations of the anchored source tried one at a time in a scratch worktree (VERIF_REPO=/tmp/wt ./check C05);
-every one yields VIOLATION lines; the NEW failing-input signature (beyond the findings F5/F7 present on the
-unchanged tree) is given, `disagreement` = correspondence only (no property-level failing input exists or was found):
-  M1  context_versioning.get_in_context_with_versions: deepcopy -> dict()      mutated:outbound:in_context, mutated:upstream:in_context
-  M2  context_versioning._merge_ctx: r_ver > l_ver -> >=                         disagreement (merge/upstream) + obligation C05_source_facts
-  M3  get_in_context_with_versions: versions[updated] += 1 -> = 1                stale:same-shape
-  M4  data_flow.publish_variables: ContextView(..., wf_ex.input, wf_ex.context)  fallback:wrong-source
-  M7  expressions.evaluate_recursively: no deepcopy of the clause                fallback:wrong-source (second evaluation of one spec) + disagreement
-  M8  context_versioning._merge_versions: max -> min                             stale:same-shape
-  M11 data_flow.evaluate_task_outbound_context: inherited over published         stale:same-shape
-  M12 lang/v2/tasks.get_publish: on-complete publish ignored next to `publish`   declared-not-published:branch
-  M13 data_flow.evaluate_upstream_context: first upstream row not merged         stale:same-shape
-  M14 data_flow.evaluate_workflow_output: wf_ex.context before the final ctx     fallback:wrong-source:output
-The candidate fixes for F5 (PublishSpec.merge takes the other side's part when its own is None) and F7
-(_get_published_keys_recursively also versions dict-valued keys) make every oracle pass (failures=0) and leave
-only model disagreements, as expected of a faithful model of the unfixed code.
-"""
